@@ -194,6 +194,11 @@ def _(prop, case, v):
     return False
 
 
+@rule("KF-C16-key-condition-shape")
+def _(prop, case, v):
+    return case.get("kind") == "hist" and v.get("sig") == "key-condition-shape"
+
+
 @rule("KF-C06-root-scalar-path")
 def _(prop, case, v):
     if case.get("kind") == "update" and v.get("sig") == "update-rejected":
